@@ -11,6 +11,8 @@ scheduler of harness/sched.py.  For every schedule the per-thread responses and 
 LINEARIZABILITY against the extracted sequential specification LdmConc.ldm_run (all linear extensions of program
 order + real-time order are evaluated by the model), and an independent oracle written from the property text checks
 ids, lost / duplicated objects, query contents, successful deletions, registries, subscriptions and notifications.
+The content of the LDM at the start of a run is a generator dimension (POPULATIONS): among others the populations a
+maintenance pass leaves empty, where the competing calls are placed at every scheduling point of the pass (handover).
 """
 from __future__ import annotations
 
@@ -47,9 +49,10 @@ TRUSTED_BASE = [
     "modelled, not verified: object contents are opaque tokens; filters, ordering, permissions and time validity are C12-C14",
 ]
 ASSUMPTIONS = [
-    "a garbage-collection pass is specified as TWO atomic steps (read the store; later remove by value the expired object "
-    "it saw), not as one atomic operation, because that is what a pass is in the code; an attendance pass has no effect on "
-    "the specified state; the check uses one expired object",
+    "a garbage-collection pass is specified as atomic steps of two kinds (read the store; later remove by value each expired "
+    "object it saw), not as one atomic operation, because that is what a pass is in the code; it removes nothing else and "
+    "never touches the identifier counter, whatever it leaves behind; an attendance pass has no effect on the specified "
+    "state; start populations hold 0-3 objects of which 0-2 (possibly all) have expired",
     "schedules are enumerated systematically up to 2 preemptions (bounded number of runs per scenario) and then sampled",
 ]
 EXPLANATION = ("PARTIAL. theorems: lock discipline / single-section database methods / ranked lock order of the regenerated LDM "
@@ -71,7 +74,7 @@ CONS = (2, 1)           # consumer applications
 # the objects of this check sit at an altitude difference for which that pass deletes nothing, so a maintenance pass
 # removes exactly the expired objects
 OBJ_ALT = 5000
-EXPIRED_ID = 2          # the third object of the set-up has expired when the run starts
+GC_SLOTS = 8            # a pass is (number of the call) * GC_SLOTS + (index of the expired object it removes)
 TWIN_TOKEN = 777        # objects added with this token at the same virtual time are content-identical (only the id differs)
 EXTRA = {"smc": 1, "smo": 2, "smic": 3, "ac": 0, "radius": 10, "rd": 1, "td": 0}
 
@@ -160,9 +163,8 @@ def all_tokens(x, out):
 class World:
     """one real LDM plus the recording of every call made on it"""
 
-    def __init__(self, variant, setup, expired=(102,)):
-        # tokens the expired object may carry during the run (used by the text oracle only)
-        self.expired = tuple(expired)
+    def __init__(self, variant, setup, progs=()):
+        self.added = []             # every successful add: (identifier, token, virtual time of the call [ms], validity [s])
         from flexstack.facilities.local_dynamic_map.factory import LDMFactory
         from flexstack.facilities.local_dynamic_map import ldm_classes as lc
         self.lc = lc
@@ -194,6 +196,11 @@ class World:
             c = self.call(-1, o)
             self.setup_atoms += c["atoms"]
         self.n_setup_events = len(self.events)
+        # tokens an expired object may carry during the run (used by the text oracle only): its own token and every
+        # token an update of the run may give it (an update keeps time stamp and validity: the object stays expired)
+        exp = self.expired_ids()
+        own = [tok for (i, tok, _t, _v) in self.added if i in exp]
+        self.expired = tuple(own + sorted({o[2] for p in progs for o in p if o[0] == "upd" and o[1] in exp}))
 
     @staticmethod
     def current_tid():
@@ -201,11 +208,27 @@ class World:
         t = s.me() if s is not None else None
         return -1 if t is None else t
 
-    def gc_atoms(self):
-        """one maintenance pass in the specification: read the store (it sees the value of the expired object 2), later
-        remove BY VALUE what it saw; the two steps may be separated by steps of other threads"""
-        slot = len(self.calls)
-        return [(19, slot, EXPIRED_ID, None), (20, slot, 0, None)]
+    def expired_ids(self):
+        """identifiers of the objects whose time validity has run out at the current virtual time (decided by the
+        instant and the validity of the add: an update keeps both).  Virtual time only moves in the set-up, so this is
+        the same set for every pass of a run.  Populations keep a margin of more than a second around the boundary."""
+        now = VCLOCK.ms
+        out = []
+        for (i, _tok, t, v) in self.added:
+            if t + 1000 * v + 1000 <= now:
+                out.append(i)
+            elif t + 1000 * v < now + 2000:
+                raise ValueError("population with an object at the boundary of its time validity")
+        return out
+
+    def gc_atoms(self, slot):
+        """one maintenance pass in the specification: read the store (it sees the value of every expired object), later
+        remove BY VALUE what it saw, one object after the other; the steps may be separated by steps of other threads.
+        Nothing else: in particular a pass never touches an object that has not expired, nor the identifier counter."""
+        exp = self.expired_ids()
+        assert len(exp) < GC_SLOTS
+        return [(19, slot * GC_SLOTS + e, i, None) for e, i in enumerate(exp)] + \
+               [(20, slot * GC_SLOTS + e, 0, None) for e, _i in enumerate(exp)]
 
     def name_locks(self):
         self.db._lock.name = "db._lock"
@@ -221,6 +244,7 @@ class World:
         rec = {"thread": tid, "op": list(o), "inv": len(self.events), "atoms": [], "resp": None, "err": None}
         self.events.append(("inv", tid, o[0]))
         self.calls.append(rec)
+        slot = len(self.calls)      # names the maintenance pass this call may run (distinct for concurrent calls)
         k = o[0]
         now = lc.TimestampIts(its_ms(VCLOCK.ms))
         gc_before = self.gc_calls.get(self.current_tid(), 0)
@@ -230,9 +254,11 @@ class World:
                                             lc.TimeValidity(o[2]))
                 r = self.if3.add_provider_data(req)
                 rec["atoms"] = [(17, o[1], PROV, ("id", int(r.data_object_id)))]
+                if int(r.data_object_id) >= 0:
+                    self.added.append((int(r.data_object_id), o[1], VCLOCK.ms, o[2]))
                 if self.gc_calls.get(self.current_tid(), 0) > gc_before:
                     # the reactive maintenance ran a pass inside this call (after the insertion)
-                    rec["atoms"] += self.gc_atoms()
+                    rec["atoms"] += self.gc_atoms(slot)
                     rec["inline_gc"] = True
             elif k == "upd":          # ("upd", id, token)
                 req = lc.UpdateDataProviderReq(PROV, o[1], now, make_location(0, 0, 0, EXTRA), simple_message(CAM, o[2]),
@@ -248,7 +274,7 @@ class World:
                 rec["code"] = int(r.result)
             elif k == "gc":           # one maintenance pass
                 self.mnt.collect_trash()
-                rec["atoms"] = self.gc_atoms()
+                rec["atoms"] = self.gc_atoms(slot)
             elif k == "attend":
                 self.svc.attend_subscriptions()
                 rec["atoms"] = []
@@ -563,17 +589,22 @@ class LinChecker:
         self.candidates = 0
         self.truncated = 0
         self.witnesses = 0
+        self.pending = []           # proposed witness orders the extracted model still has to judge (one batch)
 
-    def judge(self, world, calls, sq, final):
-        """the extracted model evaluates one order: (ok, results, final)"""
-        ns = len(world.setup_atoms)
-        atoms = world.setup_atoms + [calls[i]["atoms"][k] for (i, k) in sq]
-        flat = self.ctx.model.batch([(1, encode_atoms(atoms))])[0]
+    def flush(self):
+        """the extracted model judges every proposed order collected so far - the same evaluations as one call of
+        judge() per history, in ONE process instead of one process per history"""
+        todo, self.pending = self.pending, []
+        if not todo:
+            return
+        outs = self.ctx.model.batch([(1, encode_atoms(atoms)) for (_inp, atoms, _ns, _sq, _obs, _final) in todo])
         self.model_calls += 1
-        self.candidates += 1
-        res, mfinal = decode_model(flat, ns + len(sq))
-        ok = mfinal == final and all(same_result(calls[i]["atoms"][k][3], r) for (i, k), r in zip(sq, res[ns:]))
-        return ok, res[ns:], mfinal
+        self.candidates += len(todo)
+        for (inp, atoms, ns, sq, obs, final), flat in zip(todo, outs):
+            res, mfinal = decode_model(flat, len(atoms))
+            if not (mfinal == final and all(same_result(o, r) for o, r in zip(obs, res[ns:]))):
+                self.ctx.mismatch("python_spec_vs_model", inp, {"results": [list(r) for r in res[ns:]], "final": mfinal},
+                                  {"order": sq, "final": final}, "the proposed order is not accepted by the extracted model")
 
     def check(self, world, calls, limit=3000):
         """-> None when some admissible order explains responses and final state, else a description"""
@@ -586,11 +617,9 @@ class LinChecker:
         inp = {"calls": [[c["thread"], c["op"], [a[3] for a in c["atoms"]], c["inv"], c["resp"]] for c in calls]}
         sq = find_witness(world.setup_atoms, calls, final)
         if sq is not None:
-            ok, res, mfinal = self.judge(world, calls, sq, final)
+            self.pending.append((inp, world.setup_atoms + [calls[i]["atoms"][k] for (i, k) in sq], len(world.setup_atoms),
+                                 list(sq), [calls[i]["atoms"][k][3] for (i, k) in sq], final))
             self.witnesses += 1
-            if not ok:
-                self.ctx.mismatch("python_spec_vs_model", inp, {"results": [list(r) for r in res], "final": mfinal},
-                                  {"order": sq, "final": final}, "the proposed order is not accepted by the extracted model")
             self.cache[key] = None
             return None
         # no witness: confirm with the model over ALL admissible orders when their number is manageable
@@ -625,6 +654,39 @@ class LinChecker:
         return verdict
 
 
+KF_ADD_DEREG = "add_overlaps_provider_deregistration"
+
+
+def relax_adds_overlapping_deregistration(calls):
+    """KF-C16-2: IF.LDM.3 add_provider_data reads the provider registry and inserts afterwards, without holding the
+    service lock in between.  -> the calls in which every add that answered with an identifier AND overlapped (in real
+    time) a deregistration of its provider is specified as the unconditional insertion of the database (code 1), or None
+    when there is no such add.  Nothing else is relaxed: responses, identifiers, store and registries must still be
+    explained by one sequential order."""
+    deregs = [c for c in calls if c["op"][0] == "pdereg" and c["op"][1] == PROV]
+    out, changed = [], False
+    for c in calls:
+        if c["op"][0] == "add" and c["atoms"] and c["atoms"][0][0] == 17 and c["atoms"][0][3][1] >= 0 \
+                and any(d["inv"] < c["resp"] and c["inv"] < d["resp"] for d in deregs):
+            c = dict(c)
+            a = c["atoms"][0]
+            c["atoms"] = [(1, a[1], 0, a[3])] + list(c["atoms"][1:])
+            changed = True
+        out.append(c)
+    return out if changed else None
+
+
+def classify_not_linearizable(lin, world, run_calls, name):
+    """-> (failure class, detail) for a history the specification does not explain"""
+    relaxed = relax_adds_overlapping_deregistration(run_calls)
+    if relaxed is not None and lin.check(world, relaxed) is None:
+        return KF_ADD_DEREG, ("an add answered with an identifier although the deregistration of its provider completed "
+                              "between its registry check and its insertion (visible to a later call of another thread); "
+                              "with that add specified as check-then-insert the history has a sequential explanation")
+    return f"not_linearizable:{name}", ("no sequential order of the calls (respecting program order and real-time order) "
+                                        "gives these responses and this final state in the specification")
+
+
 # ------------------------------------------------------------------------------------------------ oracle from the text
 def oracle(world, calls, threads_exc, deadlock):
     """independent of the model: list of (class, detail, observed)"""
@@ -648,7 +710,7 @@ def oracle(world, calls, threads_exc, deadlock):
             bad.append(("add_refused", "an add by a provider that stayed registered was refused", c["op"]))
     # successful deletions of one object
     dels = {}
-    for c in run:
+    for c in setup + run:       # a population may already contain deleted objects (thread -1 = the set-up)
         if c["op"][0] == "del" and c["atoms"] and c["atoms"][0][3][1] == 1:
             dels.setdefault(c["op"][1], []).append(c["thread"])
     for i, who in dels.items():
@@ -658,7 +720,7 @@ def oracle(world, calls, threads_exc, deadlock):
     if any(a[0] == 20 for c in run for a in c["atoms"]):
         gc_tokens = set(world.expired)
     named = {}
-    for c in run:
+    for c in setup + run:
         if c["op"][0] in ("upd", "del"):
             named.setdefault(c["op"][1], []).append(c)
     # no added object lost / duplicated
@@ -809,6 +871,7 @@ SETUP_BASE = [("preg", PROV), ("creg", CONS[0]), ("creg", CONS[1]),
 OPS = {
     "add": lambda n: ("add", 200 + n, 1000),
     "upd0": lambda n: ("upd", 0, 300 + n),
+    "upd1": lambda n: ("upd", 1, 340 + n),
     "upd2": lambda n: ("upd", 2, 320 + n),
     "del0": lambda n: ("del", 0),
     "del1": lambda n: ("del", 1),
@@ -827,9 +890,39 @@ OPS = {
 }
 
 
-def expired_tokens(progs):
-    """object 2 is the expired one: its original token and every token an update of the run may give it"""
-    return tuple([102] + sorted({o[2] for p in progs for o in p if o[0] == "upd" and o[1] == 2}))
+# The property quantifies over the interleavings of the calls, whatever the LDM holds when they start.  The content of
+# the LDM at the start of a run (the POPULATION) is therefore a dimension of the generator of its own: how many objects
+# are stored, how many of them have expired (0 .. all), whether identifiers have been handed out before.  The boundary
+# populations are the ones where a maintenance pass leaves NOTHING behind (every stored object expired; the last valid
+# object deleted by the run; nothing stored at all): "no added object is lost" and "identifiers are unique" must hold
+# there as everywhere else.  Registrations and subscriptions are those of the base population, so every operation of
+# OPS keeps its meaning; the identifiers 0, 1, 2 named by upd0 / upd2 / del0 / del1 denote whatever the population
+# (or an add of the run) stored under them - possibly nothing, possibly an expired object.
+def population(objects):
+    return [("preg", PROV), ("creg", CONS[0]), ("creg", CONS[1])] + list(objects) + \
+           [("sub", 50, CONS[0]), ("sub", 51, CONS[1]), ("advance", 5000)]
+
+
+POPULATIONS = {
+    "base": SETUP_BASE,                                                      # two valid objects, one expired (id 2)
+    "one_expired": population([("add", 102, 1)]),                            # a pass empties the LDM
+    "two_expired": population([("add", 102, 1), ("add", 103, 1)]),           # a pass empties the LDM in two removals
+    "valid_and_expired": population([("add", 100, 1000), ("add", 102, 1)]),  # empty after a pass iff the run deletes id 0
+    "expired_and_valid": population([("add", 102, 1), ("add", 100, 1000)]),  # the expired object holds the first id
+    "all_valid": population([("add", 100, 1000), ("add", 101, 1000)]),       # a pass removes nothing
+    "emptied": population([("add", 100, 1000), ("add", 101, 1000), ("del", 0), ("del", 1)]),   # ids handed out, store empty
+    "never_used": population([]),                                            # nothing was ever stored
+}
+assert POPULATIONS["base"] == population([("add", 100, 1000), ("add", 101, 1000), ("add", 102, 1)])
+# populations in which some maintenance pass of a run can end with an empty LDM
+EMPTYING = ("one_expired", "two_expired", "valid_and_expired", "expired_and_valid", "emptied", "never_used")
+
+
+def setup_of(inp):
+    """the set-up of a recorded input: explicit list, else the named population, else the base population"""
+    if inp.get("setup"):
+        return [tuple(o) for o in inp["setup"]]
+    return POPULATIONS[inp.get("population") or "base"]
 
 
 def make_world_factory(variant, programs, setup=None):
@@ -848,7 +941,7 @@ def make_world_factory(variant, programs, setup=None):
                 else:
                     ops.append(tuple(name))
             progs.append(ops)
-        w = World(variant, setup, expired_tokens(progs))
+        w = World(variant, setup, progs)
 
         def body(tid):
             for o in progs[tid]:
@@ -858,7 +951,48 @@ def make_world_factory(variant, programs, setup=None):
     return make
 
 
-def run_scenario(ctx, lin, name, variant, programs, bound, max_runs, random_runs, setup=None, sweep=0):
+def tally(ctx, kind):
+    """a second classification of a case that is already counted (histogram only)"""
+    ctx.dist[kind] = ctx.dist.get(kind, 0) + 1
+
+
+def handover(make_run, pairs, max_k, seen):
+    """every schedule with ONE hand-over for the given ordered pairs (a, b): thread a runs k steps, thread b runs to
+    completion (then the others), then a finishes - for EVERY k until a is over (at most max_k).  This places the whole
+    of b's program inside each window of a's program: complete for check-then-act races between a and one competing
+    operation, however late in a the window opens (sched.one_switch does the same for all ordered pairs up to a small k)."""
+    for (a, b) in pairs:
+        for k in range(max_k):
+            run, check = make_run()
+            taken = [0]
+
+            def choose(enabled, cur, a=a, b=b, k=k):
+                if taken[0] < k and a in enabled:
+                    taken[0] += 1
+                    return a
+                if b in enabled:
+                    return b
+                others = [t for t in enabled if t != a]
+                if others:
+                    return min(others)
+                return a if a in enabled else min(enabled)
+            sched = run(choose)
+            done_early = taken[0] < k
+            key = tuple(sched)
+            if key not in seen:
+                seen.add(key)
+                check(sched)
+                yield sched, -3
+            if done_early:
+                break
+
+
+def run_scenario(ctx, lin, name, variant, programs, bound, max_runs, random_runs, setup=None, sweep=0, population=None,
+                 windows=()):
+    """population: name of the start content (POPULATIONS) when it is not given as an explicit set-up; windows: ordered
+    pairs of threads for which every single-hand-over schedule is run before the bounded exploration"""
+    if setup is None and population is not None:
+        setup = POPULATIONS[population]
     mk = make_world_factory(variant, programs, setup)
     n = 0
     label = f"{name}[{variant}]"
@@ -879,6 +1013,10 @@ def run_scenario(ctx, lin, name, variant, programs, bound, max_runs, random_runs
 
         def chk(sched):
             inp = {"scenario": name, "variant": variant, "programs": progs, "schedule": list(sched)}
+            if population is not None:
+                inp["population"] = population
+            if setup is not None and setup != SETUP_BASE:
+                inp["setup"] = [list(o) for o in setup]
             excs = [(a.tid, f"{type(a.exc).__name__}: {a.exc}") for a in holder["actors"] if a.exc is not None]
             calls = w.calls
             for cls, detail, obs in oracle(w, calls, excs, holder.get("deadlock")):
@@ -888,9 +1026,8 @@ def run_scenario(ctx, lin, name, variant, programs, bound, max_runs, random_runs
             run_calls = [c for c in calls if c["thread"] >= 0]
             v = lin.check(w, run_calls)
             if v is not None:
-                ctx.property_failure(f"not_linearizable:{name}", inp,
-                                     "no sequential order of the calls (respecting program order and real-time order) "
-                                     "gives these responses and this final state in the specification",
+                cls, detail = classify_not_linearizable(lin, w, run_calls, name)
+                ctx.property_failure(cls, inp, detail,
                                      v.get("closest"),
                                      {"responses": [[c["thread"], c["op"], [a[3] for a in c["atoms"]]] for c in run_calls],
                                       "final": v.get("observed_final"), "orders_tried": v["orders_tried"]})
@@ -898,9 +1035,14 @@ def run_scenario(ctx, lin, name, variant, programs, bound, max_runs, random_runs
 
     import itertools as _it
     first = one_switch(make_run, len(programs), sweep) if sweep else ()
-    for sched, nbp in _it.chain(first, explore(make_run, bound, max_runs, rng=ctx.rng, random_runs=random_runs)):
+    wins = handover(make_run, windows, 5000, set()) if windows else ()
+    for sched, nbp in _it.chain(wins, first, explore(make_run, bound, max_runs, rng=ctx.rng, random_runs=random_runs)):
         n += 1
         ctx.count(1, "schedules_" + ("pair" if name.startswith("pair_") else name.split("_")[0]) + "_" + variant)
+        if nbp == -3:
+            tally(ctx, "of_which_single_handover_sweep")
+        if population is not None and not name.startswith("random_"):
+            tally(ctx, "population_" + population)
         ctx.nontriv((label, tuple(sched)))
         if n == 1:
             ctx.sample({"scenario": label, "programs": programs, "schedule_length": len(sched)})
@@ -908,7 +1050,7 @@ def run_scenario(ctx, lin, name, variant, programs, bound, max_runs, random_runs
 
 
 # ------------------------------------------------------------------------------------------------ sequential correspondence
-def run_sequential(ctx, variant, names=None, concrete=None):
+def run_sequential(ctx, variant, names=None, concrete=None, population="base", setup=None, later=None):
     """one single-threaded history on a real LDM: text oracle, then responses and final state against the specification.
     names: symbolic operations (resolved while running: the twins' identifiers are only known then); concrete: the
     operation tuples of a replay"""
@@ -917,7 +1059,8 @@ def run_sequential(ctx, variant, names=None, concrete=None):
         names = [None] * len(concrete)
     else:
         pre = [[OPS[n](k) for k, n in enumerate(names) if n in OPS]]
-    w = World(variant, SETUP_BASE, expired_tokens(pre))
+    setup = POPULATIONS[population] if setup is None else setup
+    w = World(variant, setup, pre)
     atoms = list(w.setup_atoms)
     observed = []
     ops = []
@@ -944,28 +1087,39 @@ def run_sequential(ctx, variant, names=None, concrete=None):
     except Exception as e:  # noqa: BLE001
         err = f"{type(e).__name__}: {e}"
     inp = {"variant": variant, "ops": [list(o) for o in ops]}
+    if setup != SETUP_BASE:
+        inp["population"] = population
+        inp["setup"] = [list(o) for o in setup]
     ctx.count(1, "sequential_" + variant)
-    ctx.nontriv(("seq", variant, tuple(ops)))
+    tally(ctx, "population_" + population)
+    ctx.nontriv(("seq", variant, population, tuple(ops)))
     if err:
         ctx.property_failure("operation_raised:sequential", inp, "a single-threaded call raised", None, err)
         return
     for cls, detail, obs in oracle(w, w.calls, [], None):
         ctx.property_failure(f"{cls}:sequential", inp, detail, None, obs)
-    flat = ctx.model.batch([(1, encode_atoms(atoms))])[0]
-    res, mfinal = decode_model(flat, len(atoms))
-    pst, pres = spec_init(), []
-    for at in atoms:
-        pst, r = spec_step(pst, at)
-        pres.append((r[0], r[1]))
-    if [list(x) for x in pres] != [list(x) for x in res] or spec_final(pst) != mfinal:
-        ctx.mismatch("python_spec_vs_model", inp, [[list(x) for x in res], mfinal], [[list(x) for x in pres], spec_final(pst)])
-    res = res[len(w.setup_atoms):]
-    mres = [list(r) for r, o in zip(res, observed) if o is not None]
-    ires = [list(o) for o in observed if o is not None]
-    if mres != ires:
-        ctx.mismatch("sequential_responses", inp, mres, ires)
-    elif mfinal != w.final_state():
-        ctx.mismatch("sequential_final_state", inp, mfinal, w.final_state())
+    impl_final = w.final_state()
+    n_setup = len(w.setup_atoms)
+
+    def compare(flat):
+        res, mfinal = decode_model(flat, len(atoms))
+        pst, pres = spec_init(), []
+        for at in atoms:
+            pst, r = spec_step(pst, at)
+            pres.append((r[0], r[1]))
+        if [list(x) for x in pres] != [list(x) for x in res] or spec_final(pst) != mfinal:
+            ctx.mismatch("python_spec_vs_model", inp, [[list(x) for x in res], mfinal], [[list(x) for x in pres], spec_final(pst)])
+        res = res[n_setup:]
+        mres = [list(r) for r, o in zip(res, observed) if o is not None]
+        ires = [list(o) for o in observed if o is not None]
+        if mres != ires:
+            ctx.mismatch("sequential_responses", inp, mres, ires)
+        elif mfinal != impl_final:
+            ctx.mismatch("sequential_final_state", inp, mfinal, impl_final)
+    if later is None:
+        compare(ctx.model.batch([(1, encode_atoms(atoms))])[0])
+    else:
+        later.append((encode_atoms(atoms), compare))     # the caller sends all histories to the model in one batch
 
 
 def sequential_cases(ctx, lin, n_cases):
@@ -973,14 +1127,24 @@ def sequential_cases(ctx, lin, n_cases):
     kinds = list(OPS) + ["addtwin", "addtwin", "deltwin", "updtwin"]
     fixed = [["addtwin", "addtwin", "deltwin", "query"], ["addtwin", "addtwin", "addtwin", "deltwin", "updtwin", "query", "deltwin"],
              ["addtwin", "addtwin", "updtwin", "deltwin", "query"], ["add", "addtwin", "del1", "addtwin", "deltwin", "gc", "query"]]
-    plan = [(v, f) for f in fixed for v in ("Reactive", "Thread")]
+    plan = [(v, f, "base") for f in fixed for v in ("Reactive", "Thread")]
+    # every population: calls after a maintenance pass (which may have left nothing behind), after the deletion of
+    # whatever the population stored, and passes on what such calls stored
+    after_pass = [["gc", "add", "query", "gc", "add", "upd0", "query"],
+                  ["del0", "del1", "gc", "add", "query", "gc", "upd1", "del0", "add"]]
+    plan += [(v, f, pop) for pop in POPULATIONS for f in after_pass for v in ("Reactive", "Thread")]
+    pops = list(POPULATIONS)
+    later = []
     for ci in range(n_cases + len(plan)):
         if ci < len(plan):
-            variant, names = plan[ci][0], list(plan[ci][1])
+            variant, names, pop = plan[ci][0], list(plan[ci][1]), plan[ci][2]
         else:
             variant = ctx.rng.choice(["Reactive", "Thread"])
             names = [ctx.rng.choice(kinds) for _ in range(ctx.rng.randint(1, 10))]
-        run_sequential(ctx, variant, names=names)
+            pop = "base" if ctx.rng.random() < 0.4 else ctx.rng.choice(pops)
+        run_sequential(ctx, variant, names=names, population=pop, later=later)
+    for flat, (_enc, compare) in zip(ctx.model.batch([(1, enc) for enc, _c in later]), later):
+        compare(flat)
 
 
 # ------------------------------------------------------------------------------------------------ entry points
@@ -1009,6 +1173,25 @@ MULTI_ONE_CONSUMER = [
 ]
 
 
+# Scenarios on the populations in which a maintenance pass can leave the LDM empty.  Thread 0 contains the pass; the
+# windows (0, 1) place the whole program of thread 1 at EVERY scheduling point of thread 0 (single hand-over, complete),
+# the bounded exploration and the random schedules follow.  quick: the first entries; thorough: all, both directions.
+POPULATION_SCENARIOS = [
+    # (population, name, programs, variants of the quick tier)
+    ("one_expired", "pop_gc_add", [["gc"], ["add"]], ("Reactive", "Thread")),
+    ("valid_and_expired", "pop_delgc_add", [["del0", "gc"], ["add", "query"]], ("Reactive",)),
+    ("emptied", "pop_gc_add", [["gc"], ["add"]], ("Thread",)),
+    ("two_expired", "pop_gc_add", [["gc"], ["add", "query"]], ("Reactive",)),
+    ("never_used", "pop_gc_add", [["gc"], ["add"]], ()),
+    ("expired_and_valid", "pop_gcdel_add", [["gc", "del1"], ["add", "query"]], ()),
+    ("one_expired", "pop_gc_upd", [["gc"], ["upd0", "query"]], ()),
+    ("one_expired", "pop_gc_gc_add", [["gc"], ["gc"], ["add"]], ()),
+    ("two_expired", "pop_gc_del_add", [["gc"], ["del0"], ["add"]], ()),
+    ("all_valid", "pop_gc_deldel_add", [["gc"], ["del0", "del1"], ["add"]], ()),
+    ("emptied", "pop_gc_add_add", [["gc", "query"], ["add"], ["add"]], ()),
+]
+
+
 def pair_plan():
     out = []
     for i, a in enumerate(PAIR_OPS):
@@ -1021,7 +1204,7 @@ def pair_plan():
 
 def random_programs(rng):
     nt = rng.randint(2, 4)
-    names = ["add", "add", "upd0", "upd2", "del0", "del1", "query", "query", "gc", "attend", "pdereg", "preg", "cdereg",
+    names = ["add", "add", "upd0", "upd1", "upd2", "del0", "del1", "query", "query", "gc", "attend", "pdereg", "preg", "cdereg",
              "creg", "sub", "unsub", "psnap", "csnap", "ssnap"]
     progs = []
     total = 0
@@ -1046,7 +1229,12 @@ def run(ctx):
                 "{add, update, delete, query, gc, attend, register/deregister provider and consumer, subscribe, unsubscribe} on "
                 "a pre-populated LDM (3 objects, one expired; 2 subscriptions), all schedules with at most 2 preemptions up to "
                 "a bound on runs, then seeded random schedules; (b) seeded random programs of 2-4 threads x 1-4 calls; (c) "
-                "single-threaded random histories (correspondence). Each schedule is checked for linearizability against the "
+                "single-threaded random histories (correspondence); (d) the start content of the LDM is varied (populations: "
+                "every stored object expired - one or two -, valid and expired in either order, nothing expired, emptied by "
+                "deletions, never used): sequential histories and every other random program start from such a population, "
+                "and for the populations a maintenance pass can leave EMPTY the pass runs against add / update / delete / "
+                "query with the competing program placed at every scheduling point of the pass (complete single hand-over). "
+                "Each schedule is checked for linearizability against the "
                 "extracted specification (all linear extensions of program and real-time order) and by the text oracle; a "
                 "schedule is distinct by its thread-id sequence")
     quick = ctx.tier == "quick"
@@ -1058,7 +1246,8 @@ def run(ctx):
             w = k.get("witness") or {}
             if "programs" in w:
                 run_scenario(ctx, lin, w["scenario"], w.get("variant", "Reactive"), w["programs"], 2,
-                             w.get("max_runs", 400), 0, setup=w.get("setup"))
+                             w.get("max_runs", 400), 0, setup=[tuple(o) for o in w["setup"]] if w.get("setup") else None,
+                             population=w.get("population"), windows=[tuple(x) for x in w.get("windows", [])])
         sequential_cases(ctx, lin, 60 if quick else 600)
         for variant in ("Reactive", "Thread"):
             for name, progs in pair_plan():
@@ -1078,11 +1267,26 @@ def run(ctx):
                     if ctx.failures:
                         break
                     run_scenario(ctx, lin, name, variant, progs, 2, 160, 40)
+        # the start content of the LDM as a dimension of its own: passes that leave nothing behind
+        for variant in ("Reactive", "Thread"):
+            for pop, name, progs, quick_variants in POPULATION_SCENARIOS:
+                if quick and variant not in quick_variants:
+                    continue
+                nt = len(progs)
+                wins = [(0, 1)] if quick else [(a, b) for a in range(nt) for b in range(nt) if a != b]
+                run_scenario(ctx, lin, f"{name}_{pop}", variant, progs, 2, 6 if quick else 100, 2 if quick else 40,
+                             population=pop, windows=wins)
         n_rand = 25 if quick else 200
+        pops = list(POPULATIONS)
         for i in range(n_rand):
             progs = random_programs(ctx.rng)
             variant = ctx.rng.choice(["Reactive", "Thread"])
-            run_scenario(ctx, lin, f"random_{i}", variant, progs, 1, 6 if quick else 30, 6 if quick else 30)
+            # every other random program starts from a population other than the base one
+            pop = "base" if i % 2 == 0 else ctx.rng.choice(pops[1:])
+            run_scenario(ctx, lin, f"random_{i}", variant, progs, 1, 6 if quick else 30, 6 if quick else 30,
+                         population=pop)
+            tally(ctx, "population_" + pop)
+        lin.flush()
     finally:
         restore()
     ctx.sample({"linearizability": {"model_batches": lin.model_calls, "orders_evaluated_by_the_model": lin.candidates,
@@ -1099,7 +1303,8 @@ def replay(ctx, data):
     if "programs" not in inp and "ops" in inp:
         install()
         try:
-            run_sequential(ctx, inp.get("variant", "Reactive"), concrete=inp["ops"])
+            run_sequential(ctx, inp.get("variant", "Reactive"), concrete=inp["ops"],
+                           population=inp.get("population") or "base", setup=setup_of(inp))
         finally:
             restore()
     elif "programs" not in inp:
@@ -1109,7 +1314,7 @@ def replay(ctx, data):
         install()
         try:
             sched = inp.get("schedule") or []
-            mk = make_world_factory(inp["variant"], [[tuple(o) for o in p] for p in inp["programs"]])
+            mk = make_world_factory(inp["variant"], [[tuple(o) for o in p] for p in inp["programs"]], setup_of(inp))
             w, progs, fns = mk()
             s = Scheduler(TRACED)
             pos = [0]
@@ -1129,10 +1334,12 @@ def replay(ctx, data):
             for cls, detail, obs in oracle(w, w.calls, excs, dl):
                 ctx.property_failure(f"{cls}:{inp.get('scenario')}", inp, detail, None, obs)
             if not excs and not dl:
-                v = lin.check(w, [c for c in w.calls if c["thread"] >= 0])
+                run_calls = [c for c in w.calls if c["thread"] >= 0]
+                v = lin.check(w, run_calls)
                 if v is not None:
-                    ctx.property_failure(f"not_linearizable:{inp.get('scenario')}", inp, "not linearizable", v.get("closest"),
-                                         v.get("observed_final"))
+                    cls, detail = classify_not_linearizable(lin, w, run_calls, inp.get("scenario"))
+                    ctx.property_failure(cls, inp, detail, v.get("closest"), v.get("observed_final"))
+                lin.flush()
         finally:
             restore()
     bad = ctx.failures or ctx.mismatches or ctx.known_hits
